@@ -79,6 +79,7 @@ func checkC04(c *Ctx, r *Report) {
 		if f := r3.need(k); f != nil {
 			p := paramByName(f, "s")
 			hs := buildHandleSet(f, []ssa.Value{p}, nil)
+			strOwn.reset()
 			w, n := strOwn.held(f, hs, nil, nil, "all", nil, nil, 0)
 			r3.Check(w == "", k+": every exit resets the stream or dispatches it to the negotiated handler", f.Pos(), n+1, "", "an inbound stream can be abandoned without reset (its scope and the remote side stay open)", w)
 		}
@@ -90,6 +91,7 @@ func checkC04(c *Ctx, r *Report) {
 	if f := r3.need("(*p2p/net/swarm.Conn).addStream"); f != nil {
 		p := paramByName(f, "ts")
 		hs := buildHandleSet(f, []ssa.Value{p}, nil)
+		strOwn.reset()
 		w, n := strOwn.held(f, hs, nil, nil, "error", nil, nil, 0)
 		r3.Check(w == "", "(*p2p/net/swarm.Conn).addStream: muxed stream reset on every error exit", f.Pos(), n+1, "", "", w)
 	}
